@@ -154,8 +154,20 @@ def check(an: Analysis) -> None:
 
     # ------------------------------------------------------------------ C15.4 the start stamp
     ob = an.ob("C15.4", "K1", "the start stamp appended to the window is a fresh monotonic() read after the wait, on every path, before the lock is released and before the call", [F])
-    if len(appends) != 1:
-        ob.fail(f, None, f"expected one start stamp per call, found {len(appends)}")
+    cn = [n for n in g.nodes if n.kind == "call" and calls and n.ast is calls[0]]
+    if not appends:
+        ob.fail(f, None, "expected one start stamp per call, found 0")
+    elif cn:
+        # exactly one stamp on every normal path from the entry to the call of the wrapped function (the stamp may be written
+        # in both arms of the fullness test)
+        lo, hi = g.count_range(lambda n: n in appends, g.entry, lambda n: n in cn, skip_edge=normal_only)
+        if (lo, hi) == (-1, -1):
+            ob.fail(f, None, "the wrapped function is never reached")
+        elif lo < 1:
+            w = g.search([g.entry], lambda n: n in cn, skip_node=lambda n: n in appends, skip_edge=normal_only)
+            ob.fail(f, appends[0].ast, "a path starts the call without recording its start time", CFG.show_path(w) if w else "")
+        elif hi > 1:
+            ob.fail(f, appends[0].ast, f"expected one start stamp per call, found up to {hi} on one path")
     for a in appends:
         ob.inst(f, a.ast)
         arg = a.ast.args[0] if a.ast.args else None  # type: ignore[union-attr]
@@ -163,19 +175,20 @@ def check(an: Analysis) -> None:
             ob.fail(f, a.ast, "the recorded start time is not a fresh clock reading (a reading taken before the wait makes the window slide too early)")
         if not _in_lock(a.ast, locks):
             ob.fail(f, a.ast, "the start is recorded after the lock was released")
-        for s in sleeps:
-            aw = [n for n in g.nodes if n.kind == "await" and n.ast.value is s.ast]  # type: ignore[union-attr]
-            w = g.search(aw or [s], lambda n: n is a, skip_edge=normal_only)
-            if w is None:
-                ob.fail(f, a.ast, "the start is recorded before the wait (the waiting time is not counted)")
-        w = g.must_pass(lambda n: n is a, exits=("exit-return",), skip_edge=normal_only)
-        if w is not None:
-            ob.fail(f, a.ast, "a path starts the call without recording its start time", CFG.show_path(w))
-        cn = [n for n in g.nodes if n.kind == "call" and calls and n.ast is calls[0]]
         if cn:
-            w = g.ordered(lambda n: n is a, lambda n: n in cn)
-            if w is not None:
+            w = g.ordered(lambda n, a=a: n is a, lambda n: n in cn)
+            if w is not None and len(appends) == 1:
                 ob.fail(f, a.ast, "the call can begin before its start was recorded", CFG.show_path(w))
+    for s_ in sleeps:
+        aw = [n for n in g.nodes if n.kind == "await" and n.ast.value is s_.ast]  # type: ignore[union-attr]
+        # on the path that waits, the stamp is written after the wait - not before it
+        w = g.search([g.entry], lambda n, s_=s_: n is s_, skip_edge=normal_only)
+        if w is not None and any(x in appends for x in w):
+            ob.fail(f, appends[0].ast, "the start is recorded before the wait (the waiting time is not counted)", CFG.show_path(w))
+        if cn:
+            w2 = g.search(aw or [s_], lambda n: n in cn, skip_node=lambda n: n in appends, skip_edge=normal_only)
+            if w2 is not None:
+                ob.fail(f, appends[0].ast, "the start is recorded before the wait (the waiting time is not counted)", CFG.show_path(w2))
 
     # ------------------------------------------------------------------ C15.5 purge and period
     ob = an.ob("C15.5", "K11", "old entries are dropped exactly while entries[0] + period <= now (before the fullness test); _period is seconds (timedelta normalised through total_seconds())", [F, "helpers.throttling._AsyncThrottle.__init__"])
@@ -274,7 +287,12 @@ def check(an: Analysis) -> None:
             if len(live) != 1:
                 ob.fail(init, stores[0].ast, f"with period = {label}, self._period is set {len(live)} times (must be exactly once)")
                 continue
-            final = _period_value(an, init, live[0].ast.value, per_p, got)  # type: ignore[union-attr]
+            stored_ = unwrap(live[0].ast.value)  # type: ignore[union-attr]
+            cands_ = [stored_]
+            if isinstance(stored_, ast.Name) and stored_.id != per_p and dinit.single_value(stored_.id) is None:
+                cands_ = list(sc.reaching_values(live[0], stored_.id)) or [stored_]  # e.g. the result of an inlined conversion helper
+            finals_ = [_period_value(an, init, c_, per_p, got) for c_ in cands_]
+            final = finals_[0] if all(f_ is finals_[0] for f_ in finals_) else _UNKNOWN
             if final is _UNKNOWN:
                 raise AnalysisError(f"C15.5: cannot evaluate what self._period holds for {label}")
             want = _SECONDS if value is a_delta else value
